@@ -10,6 +10,7 @@ func init() {
 		"an exporter that is not (yet) registered with a MeterProvider may expose a label-less target_info; anything else it exposes is a violation",
 		"a scope attribute whose key only SANITISES to otel_scope_name / otel_scope_version (legacy scheme) is merged with the real value by the general collision rule; the otel_scope_info series is expected with that merged value, the data points with the real one",
 		"instruments of different scopes that share an exported family: values are not asserted (the winner depends on the SDK's scope order); the registry must accept every scrape when the scope labels are on and the scopes differ in (name, version); clashes inside one scope / without scope labels / with an ambiguous View are 'no panic' only",
+		"two instruments of one scope with the same spelling but another kind of data are told apart in the ManualReader's output by their data shape; names of one scope that differ only in letter case stay 'no panic' only",
 		"the race window of concurrent FIRST scrapes is sampled (2..8 scrapers x 2..6 fresh exporters per concurrent case), not enumerated",
 		"concurrent scrapes are checked for crash/race freedom, legal names, cumulative shape and monotone counters; exact values only at quiescence; schedules are sampled, not enumerated",
 	))
